@@ -98,7 +98,7 @@ def solution_single_time_step(
 
         if (
             (planting_date <= CurrentDate)
-            and (harvest_date >= CurrentDate)
+            and (harvest_date > CurrentDate)
             and (NewCond.crop_mature is False)
             and (NewCond.crop_dead is False)
         ):
